@@ -6,10 +6,10 @@ import Rq.Lemmas.Dense
 Proved here: the bit-packed **dense** matrix (`Dense`, code-shaped model of `src/matrix.rs`) refines
 the plain two-dimensional bit array (`BitMat`) under every operation of the `BinaryMatrix` trait and
 hence under every admissible operation sequence (`refines_run`). The **sparse** matrix
-(`src/sparse_matrix.rs` with its dense tail, row / column maps and stale-superset column index) has
-no Lean model yet: it is tied to the same `BitMat` by the correspondence run only (both Rust
-back-ends and both models answer every query of every generated admissible sequence alike) —
-`_partial` in the sense of DESIGN.md 7/C16.
+(`src/sparse_matrix.rs` with its dense tail, row / column maps and stale-superset column index) is
+modelled in `Rq/Model/Sparse.lean`; its refinement is proved operation by operation in
+`Rq/Thm/C16s.lean` and lifted to every admissible operation sequence, together with the statement of
+the property itself (`dense_sparse_agree`), in `Rq/Thm/C16r.lean`.
 -/
 namespace Rq.C16
 open Rq
